@@ -33,7 +33,7 @@ STUBBED = ["none inside the calls; sequenceParameters.print / backendtools chatt
 ASSUMPTIONS = ["positions are Python ints (single, list or tuple); other types are outside the statement and not generated",
                "derived values are compared with the real code on a fresh object built from the substituted string (tolerance 1e-12)",
                "calls are atomic; interleaving = which live object's call runs next"]
-PROBES = ["pos_zero", "pos_negative", "pos_N_plus_1", "pos_huge", "dup_in_call", "dup_across_calls", "non_sty_in_range",
+PROBES = ["related_objects", "pos_zero", "pos_negative", "pos_N_plus_1", "pos_huge", "dup_in_call", "dup_across_calls", "non_sty_in_range",
           "set_after_clear", "dist_k_ge_3", "kappa_after_with_sites", "tuple_arg", "int_arg", "hostile_with_sites_held",
           "second_object_checked"]
 STY = "STY"
@@ -47,6 +47,19 @@ def gen_plan(streams, tier):
         n = rnd.choice((rnd.randrange(1, 8), rnd.randrange(5, 25), rnd.randrange(10, 41)))
         cls = rnd.choice(("sty_rich", "sty_rich", "idp", "polyampholyte", "uniform", "nocharge"))
         objs.append(gen_seq(rnd, n, cls))
+    if nobj > 1 and rnd.random() < 0.45 and len(objs[0]) <= 20:
+        # relatives of object 0: tandem repeat (same fractions, different counts), permutation, or the same string
+        s0 = objs[0]
+        kind = rnd.choice(("double", "double", "triple", "perm", "same"))
+        if kind in ("double", "triple"):
+            rel = s0 * (2 if kind == "double" else 3)
+            if rnd.random() < 0.4:
+                l = list(rel); rnd.shuffle(l); rel = "".join(l)
+        elif kind == "perm":
+            l = list(s0); rnd.shuffle(l); rel = "".join(l)
+        else:
+            rel = s0
+        objs[1] = rel[:40]
     ops = []
     nops = rnd.randrange(3, 26)
     hostile_w = rnd.choice((0.1, 0.35, 0.6))
@@ -97,6 +110,11 @@ def corpus():
     out.append(("two_objects_do_not_share_sites", {"property": ID, "run_seed": 161, "objects": ["GSGSGSKE", "TSTSTSKE"], "ops": [
         {"k": "set", "o": 0, "t": "list", "v": [2, 4]}, {"k": "obs", "o": 1, "w": "sites"}, {"k": "set", "o": 1, "t": "int", "v": [1]},
         {"k": "clear", "o": 0}, {"k": "obs", "o": 1, "w": "sites"}, {"k": "obs", "o": 1, "w": "dist"}]}))
+    mono = "GSKEGTKEDY"
+    out.append(("monomer_then_dimer_distributions", {"property": ID, "run_seed": 163, "objects": [mono, mono * 2, mono * 3], "ops": [
+        {"k": "set", "o": 0, "t": "list", "v": [2, 6]}, {"k": "obs", "o": 0, "w": "dist"},
+        {"k": "set", "o": 1, "t": "list", "v": [2, 6, 12, 16]}, {"k": "obs", "o": 1, "w": "dist"}, {"k": "obs", "o": 1, "w": "kappa"},
+        {"k": "set", "o": 2, "t": "tuple", "v": [2, 16, 30]}, {"k": "obs", "o": 2, "w": "dist"}, {"k": "obs", "o": 0, "w": "dist"}, {"k": "obs", "o": 2, "w": "kappa"}]}))
     out.append(("order_is_first_set_order", {"property": ID, "run_seed": 162, "objects": ["SKTEYKSET"], "ops": [
         {"k": "set", "o": 0, "t": "list", "v": [7, 1, 5]}, {"k": "set", "o": 0, "t": "list", "v": [3, 7]},
         {"k": "obs", "o": 0, "w": "dist"}, {"k": "obs", "o": 0, "w": "kappa"}]}))
@@ -128,6 +146,8 @@ def execute(plan, ctx):
     seqs = list(plan["objects"])
     objs = [SequenceParameters(s) for s in seqs]
     model = [[] for _ in seqs]          # 1-based positions, first-set order
+    if len(seqs) > 1 and (sorted(seqs[1]) == sorted(seqs[0]) or sorted(seqs[1]) == sorted(seqs[0] * 2) or sorted(seqs[1]) == sorted(seqs[0] * 3)):
+        ctx.probe("related_objects")
     cleared = [False for _ in seqs]
 
     def sub(i, on=None):
